@@ -81,12 +81,12 @@ deriving DecidableEq, Repr
 
 def shortHeader (rest : Bytes) : Bool := rest.length < headerSize + hashSize
 def magicOf (rest : Bytes) : Nat := unle (rest.take 4)
-def sizeOf (rest : Bytes) : Nat := unle ((rest.drop 4).take 4)
+def bodySize (rest : Bytes) : Nat := unle ((rest.drop 4).take 4)
 def wrongMagic (magic : Nat) (rest : Bytes) : Bool := magicOf rest != magic
-def tooBig (rest : Bytes) : Bool := sizeOf rest > chunkSize
-def bodyOverflows (rest : Bytes) : Bool := headerSize + sizeOf rest + hashSize > rest.length
-def storedHash (rest : Bytes) : Bytes := (rest.drop (headerSize + sizeOf rest)).take hashSize
-def hashedPart (rest : Bytes) : Bytes := rest.take (headerSize + sizeOf rest)
+def tooBig (rest : Bytes) : Bool := bodySize rest > chunkSize
+def bodyOverflows (rest : Bytes) : Bool := headerSize + bodySize rest + hashSize > rest.length
+def storedHash (rest : Bytes) : Bytes := (rest.drop (headerSize + bodySize rest)).take hashSize
+def hashedPart (rest : Bytes) : Bytes := rest.take (headerSize + bodySize rest)
 def hashMismatch (H : Bytes → Bytes) (prev rest : Bytes) : Bool := H (prev ++ hashedPart rest) != storedHash rest
 
 /-- `ReadNext` on the unread part `rest` of the file (`rest = file[offset:initialFileSize]`), `prev` = hash of the previous chunk -/
@@ -97,7 +97,7 @@ def readNext (H : Bytes → Bytes) (magic : Nat) (prev rest : Bytes) : Next :=
   else if tooBig rest then .err .bodyTooBig
   else if bodyOverflows rest then .err .bodyOverflow
   else if hashMismatch H prev rest then .err .wrongHash
-  else .chunk ((rest.drop headerSize).take (sizeOf rest)) (storedHash rest) (rest.drop (headerSize + sizeOf rest + hashSize))
+  else .chunk ((rest.drop headerSize).take (bodySize rest)) (storedHash rest) (rest.drop (headerSize + bodySize rest + hashSize))
 
 theorem readNext_chunk_lt {H magic prev rest body stored rest'}
     (h : readNext H magic prev rest = .chunk body stored rest') : rest'.length < rest.length := by
